@@ -776,6 +776,17 @@ def with_late_members(progs: Iterable[dict]) -> Iterator[dict]:
                 yield q
 
 
+def with_defs_via_alias(progs: Iterable[dict]) -> Iterator[dict]:
+    """C03: the same classes with the constructor / __setattr__ written under an ordinary name and bound to the special
+    name in the class body (``__init__ = _setup``): they are the constructor / the attribute setter all the same."""
+    for p in progs:
+        if any(f["kind"] in ("init", "setattr") for f in p["fn"]) and not any(f.get("alias_of") for f in p["fn"]):
+            q = json_copy(p)
+            q["defs_via_alias"] = True
+            q["tag"] = p["tag"] + "-defs-via-alias"
+            yield q
+
+
 def fam_ctor_alias(tier: str, rng: random.Random) -> Iterator[dict]:
     """C03: the constructor bound under a second, public name (``reset = __init__``): called through that name it is a
     public method like any other - invariants before (the object may have been broken meanwhile) and after."""
